@@ -95,6 +95,8 @@ class Ctx:
         self.samples: typing.List[typing.Any] = []
         self.stats: typing.Dict[str, typing.Any] = {}
         self.caps: typing.List[str] = []
+        self.vacuity_hard: typing.List[str] = []
+        self.vacuity_soft: typing.List[str] = []
         self.workers = int(os.environ.get("VERIF_WORKERS", "16"))
 
     # ------------------------------------------------------------------
@@ -121,6 +123,12 @@ class Ctx:
 
     def violation(self, sig: dict, case: dict, what: str, n: int = 1) -> None:
         self.bag.add(sig, case, what, n)
+
+    def vacuity(self, problem: str, hard: bool) -> None:
+        """A diversity the exploration must reach was not reached. hard: computed from the space / oracle side only -> harness
+        error (exit 2) unless violations were found (a violation is always reported). soft: computed from the output under test
+        (a defect or a legitimate refactoring can change it) -> recorded in the evidence only."""
+        (self.vacuity_hard if hard else self.vacuity_soft).append(problem)
 
     def cap(self, text: str) -> None:
         if text not in self.caps:
@@ -187,6 +195,8 @@ class Ctx:
         cov = dict(coverage)
         cov.setdefault("samples", self.samples[:8] or ["<none>"])
         cov["caps_hit"] = self.caps
+        if self.vacuity_soft:
+            cov["vacuity_notes"] = self.vacuity_soft
         cov["stats"] = self.stats
         cov["known_findings_hit"] = known_hit
         ev = {
@@ -200,6 +210,8 @@ class Ctx:
             "violations": len(reported),
         }
         write_evidence(self.pid, ev)
+        if self.vacuity_hard and rc == 0:
+            raise HarnessError("vacuous exploration: " + "; ".join(self.vacuity_hard))
         if min_outcomes is not None and rc == 0:
             name, need = min_outcomes
             have = cov.get(name, 0)
